@@ -50,12 +50,12 @@ Qed.
 (* one call on an owned stream: other streams and files outside N are untouched *)
 Lemma ps_step_use : forall pol (N : ps_name -> Prop) op h s,
   ps_op_handle op = Some h ->
-  (forall x, ps_hget h (ps_hs s) = Some x -> N (ph_name x)) ->
+  (forall x, ps_hget h (ps_hs s) = Some x -> N (psh_name x)) ->
   let s' := snd (ps_step pol op s) in
   ps_next s' = ps_next s /\
   (forall g, g <> h -> ps_hget g (ps_hs s') = ps_hget g (ps_hs s)) /\
   (forall x', ps_hget h (ps_hs s') = Some x' ->
-              exists x, ps_hget h (ps_hs s) = Some x /\ ph_name x' = ph_name x) /\
+              exists x, ps_hget h (ps_hs s) = Some x /\ psh_name x' = psh_name x) /\
   (forall n, ~ N n -> ps_get n (ps_fs s') = ps_get n (ps_fs s)).
 Proof.
   intros pol N op h s Hop Hn.
@@ -63,14 +63,14 @@ Proof.
             ps_next t = ps_next s /\
             (forall g, g <> h -> ps_hget g (ps_hs t) = ps_hget g (ps_hs s)) /\
             (forall x', ps_hget h (ps_hs t) = Some x' ->
-                        exists x, ps_hget h (ps_hs s) = Some x /\ ph_name x' = ph_name x) /\
+                        exists x, ps_hget h (ps_hs s) = Some x /\ psh_name x' = psh_name x) /\
             (forall n, ~ N n -> ps_get n (ps_fs t) = ps_get n (ps_fs s))).
   { intros t ->. repeat split; try reflexivity. intros x' E. exists x'. split; [exact E|reflexivity]. }
   assert (Out : forall d fl cl t, ps_out pol s h d fl cl = Some t ->
             ps_next t = ps_next s /\
             (forall g, g <> h -> ps_hget g (ps_hs t) = ps_hget g (ps_hs s)) /\
             (forall x', ps_hget h (ps_hs t) = Some x' ->
-                        exists x, ps_hget h (ps_hs s) = Some x /\ ph_name x' = ph_name x) /\
+                        exists x, ps_hget h (ps_hs s) = Some x /\ psh_name x' = psh_name x) /\
             (forall n, ~ N n -> ps_get n (ps_fs t) = ps_get n (ps_fs s))).
   { intros d fl cl t E. apply ps_out_spec in E.
     destruct E as (x & now & later & Hx & _ & _ & _ & _ & Hf & Hh & Hnx).
@@ -80,12 +80,12 @@ Proof.
       split; [exact Hx|reflexivity].
     - intros n Hnn. rewrite Hf. apply ps_get_append_other. intro E. subst n. apply Hnn.
       apply Hn. exact Hx. }
-  assert (Put : forall x y, ps_hget h (ps_hs s) = Some x -> ph_name y = ph_name x ->
+  assert (Put : forall x y, ps_hget h (ps_hs s) = Some x -> psh_name y = psh_name x ->
             let t := mkPsS (ps_fs s) (ps_hput h y (ps_hs s)) (ps_next s) in
             ps_next t = ps_next s /\
             (forall g, g <> h -> ps_hget g (ps_hs t) = ps_hget g (ps_hs s)) /\
             (forall x', ps_hget h (ps_hs t) = Some x' ->
-                        exists x, ps_hget h (ps_hs s) = Some x /\ ph_name x' = ph_name x) /\
+                        exists x, ps_hget h (ps_hs s) = Some x /\ psh_name x' = psh_name x) /\
             (forall n, ~ N n -> ps_get n (ps_fs t) = ps_get n (ps_fs s))).
   { intros x y Hx Hy t. subst t. cbn [ps_next ps_hs ps_fs]. split; [reflexivity|]. split; [|split].
     - intros g Hg. apply ps_hget_hput_other. exact Hg.
@@ -94,14 +94,14 @@ Proof.
   destruct op; cbn [ps_op_handle] in Hop; inversion Hop; subst; unfold ps_step.
   - (* read *)
     destruct (ps_hget h (ps_hs s)) as [x|] eqn:Hx; [|apply Same; reflexivity].
-    destruct (ph_open x && negb (ps_writable (ph_mode x))); [|apply Same; reflexivity].
-    destruct ((0 <? sz) && (ph_pos x + sz <=? len (ph_data x))); cbn [snd].
+    destruct (psh_open x && negb (ps_writable (psh_mode x))); [|apply Same; reflexivity].
+    destruct ((0 <? sz) && (psh_pos x + sz <=? len (psh_data x))); cbn [snd].
     + apply (Put x); reflexivity.
     + destruct (0 <? sz); cbn [snd]; [apply (Put x); reflexivity|apply Same; reflexivity].
   - (* gets *)
     destruct (ps_hget h (ps_hs s)) as [x|] eqn:Hx; [|apply Same; reflexivity].
-    destruct (ph_open x && negb (ps_writable (ph_mode x))); [|apply Same; reflexivity].
-    destruct (ps_line (Z.to_nat (cap - 1)) (drop (ph_pos x) (ph_data x))); cbn [snd];
+    destruct (psh_open x && negb (ps_writable (psh_mode x))); [|apply Same; reflexivity].
+    destruct (ps_line (Z.to_nat (cap - 1)) (drop (psh_pos x) (psh_data x))); cbn [snd];
       [apply Same; reflexivity|apply (Put x); reflexivity].
   - (* write *)
     destruct d as [|b d]; [apply Same; reflexivity|].
@@ -113,8 +113,8 @@ Proof.
       [eapply Out; exact E|apply Same; reflexivity].
   - (* close *)
     destruct (ps_hget h (ps_hs s)) as [x|] eqn:Hx; [|apply Same; reflexivity].
-    destruct (ph_open x); [|apply Same; reflexivity].
-    destruct (ps_writable (ph_mode x)).
+    destruct (psh_open x); [|apply Same; reflexivity].
+    destruct (ps_writable (psh_mode x)).
     + destruct (ps_out pol s h [] true true) as [t|] eqn:E; cbn [snd];
         [eapply Out; exact E|apply Same; reflexivity].
     + cbn [snd]. apply (Put x); reflexivity.
@@ -144,19 +144,19 @@ Proof.
   destruct op; unfold ps_step.
   - destruct m; [destruct (ps_get n (ps_fs s)); [apply New|exact Hs]|apply New|apply New].
   - destruct (ps_hget h (ps_hs s)) as [x|] eqn:Hx; [|exact Hs].
-    destruct (ph_open x && negb (ps_writable (ph_mode x))); [|exact Hs].
-    destruct ((0 <? sz) && (ph_pos x + sz <=? len (ph_data x))); cbn [snd];
+    destruct (psh_open x && negb (ps_writable (psh_mode x))); [|exact Hs].
+    destruct ((0 <? sz) && (psh_pos x + sz <=? len (psh_data x))); cbn [snd];
       [eapply Put; exact Hx|]. destruct (0 <? sz); cbn [snd]; [eapply Put; exact Hx|exact Hs].
   - destruct (ps_hget h (ps_hs s)) as [x|] eqn:Hx; [|exact Hs].
-    destruct (ph_open x && negb (ps_writable (ph_mode x))); [|exact Hs].
-    destruct (ps_line (Z.to_nat (cap - 1)) (drop (ph_pos x) (ph_data x))); cbn [snd];
+    destruct (psh_open x && negb (ps_writable (psh_mode x))); [|exact Hs].
+    destruct (ps_line (Z.to_nat (cap - 1)) (drop (psh_pos x) (psh_data x))); cbn [snd];
       [exact Hs|eapply Put; exact Hx].
   - destruct d as [|b d]; [exact Hs|].
     destruct (ps_out pol s h (b :: d) false false) eqn:E; cbn [snd]; [eapply Out; exact E|exact Hs].
   - destruct (ps_out pol s h d false false) eqn:E; cbn [snd]; [eapply Out; exact E|exact Hs].
   - destruct (ps_out pol s h [] true false) eqn:E; cbn [snd]; [eapply Out; exact E|exact Hs].
   - destruct (ps_hget h (ps_hs s)) as [x|] eqn:Hx; [|exact Hs].
-    destruct (ph_open x); [|exact Hs]. destruct (ps_writable (ph_mode x)).
+    destruct (psh_open x); [|exact Hs]. destruct (ps_writable (psh_mode x)).
     + destruct (ps_out pol s h [] true true) eqn:E; cbn [snd]; [eapply Out; exact E|exact Hs].
     + cbn [snd]. eapply Put; exact Hx.
   - destruct (ps_get a (ps_fs s)); cbn [snd]; [|exact Hs]. intros g z Hg. exact (Hs g z Hg).
@@ -172,7 +172,7 @@ Qed.
 
 (* the invariant carried through a run *)
 Definition ps_owned (N : ps_name -> Prop) (H : Z -> Prop) (s : ps_sys) : Prop :=
-  forall h x, H h -> ps_hget h (ps_hs s) = Some x -> N (ph_name x).
+  forall h x, H h -> ps_hget h (ps_hs s) = Some x -> N (psh_name x).
 
 Theorem ps_footprint : forall pol N A (H : Z -> Prop) (p : ps_prog A),
   ps_own N H p ->
@@ -191,15 +191,15 @@ Proof.
     assert (S1 : ps_next s <= ps_next s1 /\
                  (forall g, g <> ps_next s -> ps_hget g (ps_hs s1) = ps_hget g (ps_hs s)) /\
                  (forall n', ~ N n' -> ps_get n' (ps_fs s1) = ps_get n' (ps_fs s)) /\
-                 (forall x, ps_hget (ps_next s) (ps_hs s1) = Some x -> ph_name x = n) /\
+                 (forall x, ps_hget (ps_next s) (ps_hs s1) = Some x -> psh_name x = n) /\
                  (forall g, r = PrH g -> g = ps_next s)).
-    { assert (New : forall fs x, ph_name x = n ->
+    { assert (New : forall fs x, psh_name x = n ->
                 (forall n', ~ N n' -> ps_get n' fs = ps_get n' (ps_fs s)) ->
                 let t := mkPsS fs (ps_hput (ps_next s) x (ps_hs s)) (ps_next s + 1) in
                 ps_next s <= ps_next t /\
                 (forall g, g <> ps_next s -> ps_hget g (ps_hs t) = ps_hget g (ps_hs s)) /\
                 (forall n', ~ N n' -> ps_get n' (ps_fs t) = ps_get n' (ps_fs s)) /\
-                (forall y, ps_hget (ps_next s) (ps_hs t) = Some y -> ph_name y = n)).
+                (forall y, ps_hget (ps_next s) (ps_hs t) = Some y -> psh_name y = n)).
       { intros fs x Hx Hfs t. subst t. cbn [ps_next ps_hs ps_fs]. split; [lia|]. split; [|split].
         - intros g Hg. apply ps_hget_hput_other. exact Hg.
         - exact Hfs.
